@@ -337,6 +337,32 @@ pub mod c19 {
                 let data = image_data(&mut r, iw as usize, ih as usize, bpp, compress, 0);
                 Case { win_w, win_h, left, top, right, bottom, img_w: iw, img_h: ih, bpp, compress, data, conformant: true, class: "paintable" }
             }
+            3 => {
+                // uncompressed bitmaps announcing far more pixels than they carry: products at and around 2^30, 2^31, 2^32
+                // pixels or bytes, one or both dimensions at the top of the 16-bit range; the data is short (also of exactly
+                // the length the announced size has modulo 2^32), the rectangle small and inside the window
+                const DIMS: [(u16, u16); 16] = [(32768, 32768), (65535, 65535), (16384, 65535), (40000, 30000), (32767, 32768), (65535, 16385), (46341, 46341), (65535, 32768), (32768, 16384), (16384, 16384), (65535, 1), (1, 65535), (65535, 4), (46340, 46341), (23170, 23171), (65534, 32769)];
+                let (iw, ih) = DIMS[(idx % 16) as usize];
+                let bpp = if (idx / 16) % 2 == 0 { 32u16 } else { 16 };
+                let announced = iw as u64 * ih as u64 * (bpp as u64 / 8);
+                let wrapped = (announced & 0xffff_ffff) as usize;
+                let n = match (idx / 32) % 6 {
+                    0 => 0,
+                    1 => 1,
+                    2 => r.range(2, 4096) as usize,
+                    3 => wrapped.min(200_000),
+                    4 => (wrapped + r.range(1, 64) as usize).min(200_000),
+                    _ => (iw as usize * (bpp as usize / 8)).min(200_000) * r.range(1, 3) as usize,
+                };
+                let win_w = r.range(4, 64) as usize;
+                let win_h = r.range(4, 48) as usize;
+                let left = r.below(win_w as u64) as u16;
+                let top = r.below(win_h as u64) as u16;
+                let right = r.range(left as u64, win_w as u64 - 1) as u16;
+                let bottom = r.range(top as u64, win_h as u64 - 1) as u16;
+                let data = r.bytes(n);
+                Case { win_w, win_h, left, top, right, bottom, img_w: iw, img_h: ih, bpp, compress: false, data, conformant: false, class: "announced-size-extremes" }
+            }
             _ => {
                 // larger windows, rectangles in and out of range, extreme coordinates
                 let win_w = *r.pick(&[16usize, 33, 64, 100, 640, 800, 1024, 1366]);
@@ -412,6 +438,16 @@ pub mod c19 {
                 judge(&c, rep);
             });
             total.count("paintable_cases", n);
+            total.merge(rep);
+        }
+        if cfg.wants(3) {
+            let n = cfg.n(16 * 2 * 6 * 4, 16 * 2 * 6 * 400);
+            let rep = par_run(cfg, n, 16, |idx, rep| {
+                mon::begin_case(19, 3, idx, seed);
+                let c = make_case(3, idx, seed);
+                judge(&c, rep);
+            });
+            total.count("announced_size_extreme_cases", n);
             total.merge(rep);
         }
         total.observe("transmute_vec-layout", || json!("fast_bitmap_transfer turns the Vec<u8> returned by decompress into a Vec<u32> by pointer cast (transmute_vec); with the system allocator this neither reads nor writes outside the two buffers and is not judged here (Miri stops at the mismatching deallocation layout)"));
@@ -736,8 +772,38 @@ pub mod c20 {
 
     /// `big`: 0 = 16-byte rectangles; 1 = every other PDU carries 2 KiB rectangles (frame > 1500 bytes);
     /// 2 = every other PDU carries one 20 KiB rectangle (larger than a TLS record)
+    /// 3 = PDUs of several updates: zero-length synchronize / pointer updates ahead of and between bitmap updates;
+    /// 4 = every fourth PDU carries one update of more than a thousand one-pixel rectangles
     fn bitmap_pdu(srv: &Server, k: usize, big: u8) -> (Vec<u8>, Vec<Vec<u8>>) {
-        let large = big > 0 && k % 2 == 0;
+        if big == 3 || (big == 4 && k % 4 == 1) {
+            let px = |i: usize| -> Rect {
+                Rect { left: (k % 500) as u16, top: (i % 500) as u16, right: (k % 500) as u16, bottom: (i % 500) as u16, width: 1, height: 1, bpp: 32, flags: 0, data: vec![k as u8, (k >> 8) as u8, i as u8, 0xC0 | ((i >> 8) as u8 & 0x3f)] }
+            };
+            let mut body = B::new();
+            let mut stamps = Vec::new();
+            let mut n = 0usize;
+            let mut add_bitmaps = |body: &mut B, count: usize, tag: &str| {
+                let rects: Vec<Rect> = (n..n + count).map(px).collect();
+                n += count;
+                stamps.extend(rects.iter().map(|r| r.data.clone()));
+                body.nest(tag, &proto::fp_update(1, &proto::bitmap_update_body(&rects)));
+            };
+            if big == 4 {
+                add_bitmaps(&mut body, 1025 + (k % 3) * 40, "many");
+            } else {
+                let empty = |code: u8| proto::fp_update(code, &B::new());
+                if k % 3 != 2 {
+                    body.nest("e0", &empty([3u8, 5, 6][k % 3]));
+                }
+                add_bitmaps(&mut body, 1 + k % 3, "b0");
+                if k % 2 == 1 {
+                    body.nest("e1", &empty([5u8, 6, 3][k % 3]));
+                    add_bitmaps(&mut body, 1, "b1");
+                }
+            }
+            return (srv.frame(&body, Wrap::FastPath { sec: 0, long: big == 4 || k % 2 == 0 }), stamps);
+        }
+        let large = big > 0 && big < 3 && k % 2 == 0;
         let nr = if large && big == 2 { 1 } else { 1 + k % 3 };
         // small rectangles come in every thin shape too (a caret, a border line, a single pixel)
         let (w, h): (u16, u16) = if !large { [(2u16, 2u16), (1, 1), (1, 3), (5, 1)][k % 4] } else if big == 1 { (32, 16) } else { (64, 80) };
@@ -1292,7 +1358,7 @@ pub mod c20 {
                 let point = points[(k % 4) as usize];
                 k /= 4;
                 let step = steps[(k % 3) as usize];
-                Scenario { packing, n_pdus: 6, end, point, step, tls12: r.chance(2, 3), linger: r.chance(1, 2), input_writer: r.chance(1, 2), pauses: r.chance(1, 2), end_in_same_record: r.chance(1, 5), big: r.below(3) as u8, silence_ms: 0, stall_inside_pdu_ms: 0, reactivate: false, seed: seed ^ idx }
+                Scenario { packing, n_pdus: 6, end, point, step, tls12: r.chance(2, 3), linger: r.chance(1, 2), input_writer: r.chance(1, 2), pauses: r.chance(1, 2), end_in_same_record: r.chance(1, 5), big: r.below(5) as u8, silence_ms: 0, stall_inside_pdu_ms: 0, reactivate: false, seed: seed ^ idx }
             }
             2 => {
                 // a live session in which the server says nothing for a while, then goes on
@@ -1327,7 +1393,7 @@ pub mod c20 {
                 input_writer: r.chance(2, 3),
                 pauses: true,
                 end_in_same_record: r.chance(1, 5),
-                big: r.below(3) as u8,
+                big: r.below(5) as u8,
                 silence_ms: 0,
                 stall_inside_pdu_ms: 0,
                 reactivate: r.chance(1, 4),
